@@ -67,7 +67,7 @@ for name in which:
     env=dict(os.environ,VERIF_REPO=WT,C15_SKIP_MC='1')
     r=subprocess.run(['bin/vcheck','C15','--tier','quick'],cwd='/verif',env=env,capture_output=True,text=True)
     out=r.stdout+r.stderr
-    open('/var/tmp/c15scratch/%s.out'%name,'w').write(out)
+    os.makedirs('/var/tmp/c15-mutants',exist_ok=True); open('/var/tmp/c15-mutants/%s.out'%name,'w').write(out)
     viol=[l for l in out.splitlines() if l.startswith('VIOLATION')]
     sigs=[]
     for v in viol[:10]:
